@@ -204,8 +204,8 @@ def parse_tv(ts):
 class Func:
     def __init__(self): self.name=None; self.ret=None; self.params=[]; self.va=False; self.blocks=[]; self.defined=False; self.attrs=set(); self.linkage=''
 class Inst:
-    __slots__=('op','res','ty','ops','x','c','h','dbg','lib')
-    def __init__(self, op, res=None, ty=None, ops=None, x=None): self.op=op; self.res=res; self.ty=ty; self.ops=ops or []; self.x=x; self.c=None; self.h=None; self.dbg=None; self.lib=None
+    __slots__=('op','res','ty','ops','x','c','h','dbg','lib','lk')
+    def __init__(self, op, res=None, ty=None, ops=None, x=None): self.op=op; self.res=res; self.ty=ty; self.ops=ops or []; self.x=x; self.c=None; self.h=None; self.dbg=None; self.lib=None; self.lk=None
 
 class Module:
     def __init__(self):
@@ -250,7 +250,8 @@ def parse_module(text):
                 sc = fld(r'scope: !(\d+)'); fi = fld(r'file: !(\d+)'); ia = fld(r'inlinedAt: !(\d+)')
                 fname = fld(r'filename: "([^"]*)"'); dname = fld(r'directory: "([^"]*)"')
                 if fname is not None and not fname.startswith('/') and dname: fname = dname.rstrip('/') + '/' + fname      # clang records paths relative to the compilation directory
-                m.md[int(mm.group(1))] = (mm.group(2), int(sc) if sc else None, int(fi) if fi else None, int(ia) if ia else None, fname)
+                ln = fld(r'line: (\d+)')
+                m.md[int(mm.group(1))] = (mm.group(2), int(sc) if sc else None, int(fi) if fi else None, int(ia) if ia else None, fname, int(ln) if ln else None)
             continue
         if l.startswith('source_filename') or l.startswith('target ') or l.startswith('$'): continue
         if l.startswith('attributes '):
